@@ -737,7 +737,14 @@ impl Instance {
                 self.post_structural()
             }
             Op::Leveled { target, l0, ratio, reps, wm } => {
-                for _ in 0..*reps {
+                for rep in 0..*reps {
+                    if rep > 0 {
+                        // the known-finding signature of C13 asks whether the resurfaced entry sits in a table THIS
+                        // compaction did not rewrite: "before" is the state before this round, not before the op (an
+                        // earlier round may have moved the table; the thorough tier misfiled the known defect as a
+                        // new one at seed 6, case 2144)
+                        self.phys_prev = self.physical_w_entries();
+                    }
                     let t = self.watermark(*wm);
                     let strat = lsm_tree::compaction::Leveled::default()
                         .with_table_target_size(*target)
